@@ -1078,23 +1078,906 @@ theorem maybeBuild_flows (r : Ring) (s e : Nat) (c : Coll) (h : r.maybeBuild s e
       exact ⟨rfl, rfl, aggregate_fst _ _ _⟩
     · cases hk'
 
-/-! ### configuration guard for the emission walk -/
+/-! ### the emission walk: termination, shape, disjointness -/
 
-/-- The index walk of `EmitFlowCollections` with the head at index 0 and no pushed bucket: it is
-"good" if some window strictly contains the head before any window boundary equals the head index. -/
-def walkGood (n agg : Nat) : Nat → Nat → Nat → Bool
-  | 0, _, _ => false
-  | fuel + 1, s, e =>
-    let e' := s
-    let s' := (s + n - agg) % n
-    if indexBetween s' e' 0 then true
-    else if s' = 0 ∨ e' = 0 then false
-    else walkGood n agg fuel s' e'
+/-- the walk stops by its own test: more fuel than `n - oldest` changes nothing -/
+theorem buildLoop2_fuel (r : Ring) (hagg : 1 ≤ r.agg) (fuel oldest s e : Nat) (h : r.n ≤ fuel + oldest) :
+    r.buildLoop2 fuel oldest s e = r.buildLoop2 (fuel + 1) oldest s e := by
+  induction fuel generalizing oldest s e with
+  | zero =>
+    have : ¬ oldest < r.n := by omega
+    simp [Ring.buildLoop2, this]
+  | succ f ih =>
+    rw [Ring.buildLoop2, Ring.buildLoop2]
+    split
+    · cases r.maybeBuild s e with
+      | none => rfl
+      | some c => simp only []; rw [ih _ _ _ (by omega)]
+    · rfl
 
-def emitGuard (n pushAfter agg : Nat) : Bool :=
-  decide (0 < n ∧ 0 < agg ∧ pushAfter + agg + 2 ≤ n) &&
-  (let e := (n - 1 + n - pushAfter) % n
-   let s := (e + n - agg) % n
-   walkGood n agg (4 * n + 4) s e)
+theorem idxSub_idxSub (r : Ring) (h a b : Nat) (hh : h < r.n) (hab : a + b ≤ r.n) :
+    r.idxSub (r.idxSub h a) b = r.idxSub h (a + b) := by
+  unfold Ring.idxSub
+  rw [sub_mod_cases h r.n a hh (by omega)]
+  split
+  · rw [sub_mod_cases (h - a) r.n b (by omega) (by omega), sub_mod_cases h r.n (a + b) hh hab]
+    split <;> split <;> omega
+  · rw [sub_mod_cases (h + r.n - a) r.n b (by omega) (by omega), sub_mod_cases h r.n (a + b) hh hab]
+    split <;> split <;> omega
+
+theorem idxAdd_idxSub (r : Ring) (h d : Nat) (hh : h < r.n) (hd1 : 1 ≤ d) (hd : d < r.n) :
+    r.idxAdd (r.idxSub h d) 1 = r.idxSub h (d - 1) := by
+  unfold Ring.idxAdd Ring.idxSub
+  rw [sub_mod_cases h r.n d hh (by omega), sub_mod_cases h r.n (d - 1) hh (by omega)]
+  split
+  · rw [add_one_mod_cases (h - d) r.n (by omega)]; split <;> split <;> omega
+  · rw [add_one_mod_cases (h + r.n - d) r.n (by omega)]; split <;> split <;> omega
+
+/-- indexes of the window whose oldest bucket is `D` back from the head: distances `D, D-1, …, D-m+1` -/
+def winIdx (r : Ring) (D m : Nat) : List Nat := (List.range m).map (fun j => r.idxSub r.head (D - j))
+
+theorem iterIdx_win (r : Ring) (hh : r.head < r.n) (fuel D m : Nat) (hm : m ≤ fuel) (hmD : m ≤ D) (hD : D < r.n) :
+    r.iterIdx fuel (r.idxSub r.head D) (r.idxSub r.head (D - m)) = winIdx r D m := by
+  induction m generalizing fuel D with
+  | zero =>
+    cases fuel with
+    | zero => simp [Ring.iterIdx, winIdx]
+    | succ f => simp [Ring.iterIdx, winIdx]
+  | succ m ih =>
+    cases fuel with
+    | zero => omega
+    | succ f =>
+      have hne : r.idxSub r.head D ≠ r.idxSub r.head (D - (m + 1)) := by
+        intro he
+        have := idxSub_inj r r.head D (D - (m + 1)) hh hD (by omega) he
+        omega
+      rw [Ring.iterIdx]
+      simp only [hne, if_false]
+      rw [idxAdd_idxSub r r.head D hh (by omega) hD]
+      have : D - (m + 1) = (D - 1) - m := by omega
+      rw [this, ih f (D - 1) (by omega) (by omega) (by omega)]
+      unfold winIdx
+      rw [List.range_succ_eq_map]
+      simp only [List.map_cons, List.map_map, Nat.sub_zero]
+      congr 1
+      apply List.map_congr_left
+      intro j _
+      simp only [Function.comp]
+      congr 1; omega
+
+theorem maybeBuild_idxs (r : Ring) (s e : Nat) (c : Coll) (h : r.maybeBuild s e = some c) : c.idxs = r.iterIdx r.n s e := by
+  unfold Ring.maybeBuild at h
+  split at h
+  · cases h
+  · simp only [Option.some.injEq] at h; subst h; rfl
+
+/-- all windows the fixed walk can build from distance `D` on -/
+def allWins (r : Ring) : Nat → Nat → List (List Nat)
+  | 0, _ => []
+  | fuel + 1, D => if D < r.n then winIdx r D r.agg :: allWins r fuel (D + r.agg) else []
+
+theorem buildLoop2_prefix (r : Ring) (hh : r.head < r.n) (fuel D : Nat) (hD : r.agg ≤ D) :
+    ((r.buildLoop2 fuel D (r.idxSub r.head D) (r.idxSub r.head (D - r.agg))).map (·.idxs)).IsPrefix (allWins r fuel D) := by
+  induction fuel generalizing D with
+  | zero => simp [Ring.buildLoop2, allWins]
+  | succ f ih =>
+    rw [Ring.buildLoop2, allWins]
+    by_cases hlt : D < r.n
+    · simp only [hlt, if_true]
+      cases hb : r.maybeBuild (r.idxSub r.head D) (r.idxSub r.head (D - r.agg)) with
+      | none => simp
+      | some c =>
+        simp only [List.map_cons]
+        have hidx : c.idxs = winIdx r D r.agg := by
+          rw [maybeBuild_idxs r _ _ c hb]
+          exact iterIdx_win r hh r.n D r.agg (by omega) hD hlt
+        rw [hidx]
+        have hnext : r.idxSub (r.idxSub r.head D) r.agg = r.idxSub r.head (D + r.agg) ∨ ¬ (D + r.agg < r.n) := by
+          by_cases h2 : D + r.agg < r.n
+          · left; exact idxSub_idxSub r r.head D r.agg hh (by omega)
+          · right; exact h2
+        rcases hnext with hnext | hnext
+        · have := ih (D + r.agg) (by omega)
+          rw [hnext]
+          have he : D + r.agg - r.agg = D := by omega
+          rw [he] at this
+          exact List.prefix_cons_inj _ |>.2 this
+        · -- the next window does not fit: the recursive call returns []
+          have hnil : ∀ s e, r.buildLoop2 f (D + r.agg) s e = [] := by
+            intro s e
+            cases f with
+            | zero => rfl
+            | succ f' => rw [Ring.buildLoop2]; simp [hnext]
+          rw [hnil]
+          simp
+    · simp [hlt]
+
+
+theorem mem_winIdx {r : Ring} {D m i : Nat} : i ∈ winIdx r D m ↔ ∃ j, j < m ∧ i = r.idxSub r.head (D - j) := by
+  unfold winIdx
+  simp only [List.mem_map, List.mem_range]
+  constructor
+  · rintro ⟨j, hj, rfl⟩; exact ⟨j, hj, rfl⟩
+  · rintro ⟨j, hj, rfl⟩; exact ⟨j, hj, rfl⟩
+
+/-- every index of every window from `D` on is some distance `d` with `D - agg < d < n` back from the head -/
+theorem allWins_dist (r : Ring) (fuel D : Nat) (hD : r.agg ≤ D) (w : List Nat) (hw : w ∈ allWins r fuel D) (i : Nat) (hi : i ∈ w) :
+    ∃ d, D - r.agg < d ∧ d < r.n ∧ i = r.idxSub r.head d := by
+  induction fuel generalizing D with
+  | zero => simp [allWins] at hw
+  | succ f ih =>
+    rw [allWins] at hw
+    split at hw
+    · rename_i hlt
+      simp only [List.mem_cons] at hw
+      rcases hw with rfl | hw
+      · obtain ⟨j, hj, rfl⟩ := mem_winIdx.1 hi
+        exact ⟨D - j, by omega, by omega, rfl⟩
+      · obtain ⟨d, h1, h2, h3⟩ := ih (D + r.agg) (by omega) hw
+        exact ⟨d, by omega, h2, h3⟩
+    · cases hw
+
+theorem allWins_pairwise (r : Ring) (hh : r.head < r.n) (fuel D : Nat) (hD : r.agg ≤ D) :
+    (allWins r fuel D).Pairwise (fun a b => ∀ i, i ∈ a → i ∉ b) := by
+  induction fuel generalizing D with
+  | zero => simp [allWins]
+  | succ f ih =>
+    rw [allWins]
+    split
+    · rename_i hlt
+      rw [List.pairwise_cons]
+      refine ⟨?_, ih (D + r.agg) (by omega)⟩
+      intro b hb i hi hib
+      obtain ⟨j, hj, rfl⟩ := mem_winIdx.1 hi
+      obtain ⟨d, h1, h2, h3⟩ := allWins_dist r f (D + r.agg) (by omega) b hb _ hib
+      have := idxSub_inj r r.head (D - j) d hh (by omega) h2 h3
+      omega
+    · exact List.Pairwise.nil
+
+/-- the windows `r.built` is made of, for the fixed walk -/
+theorem built_prefix (r : Ring) (hh : r.head < r.n) :
+    (r.built.map (·.idxs)).IsPrefix (allWins r r.n (1 + r.pushAfter + r.agg)) := by
+  unfold Ring.built
+  simp only []
+  by_cases hagg : r.agg < 1
+  · simp [hagg]
+  · simp only [hagg, if_false]
+    by_cases hfit : 1 + r.pushAfter + r.agg < r.n
+    · have h1 : r.idxSub (r.idxSub r.head 1) r.pushAfter = r.idxSub r.head (1 + r.pushAfter) :=
+        idxSub_idxSub r r.head 1 r.pushAfter hh (by omega)
+      have h2 : r.idxSub (r.idxSub r.head (1 + r.pushAfter)) r.agg = r.idxSub r.head (1 + r.pushAfter + r.agg) :=
+        idxSub_idxSub r r.head (1 + r.pushAfter) r.agg hh (by omega)
+      rw [h1, h2]
+      have := buildLoop2_prefix r hh r.n (1 + r.pushAfter + r.agg) (by omega)
+      have he : 1 + r.pushAfter + r.agg - r.agg = 1 + r.pushAfter := by omega
+      rw [he] at this
+      exact this
+    · have : ∀ s e, r.buildLoop2 r.n (1 + r.pushAfter + r.agg) s e = [] := by
+        intro s e
+        cases hn : r.n with
+        | zero => rfl
+        | succ f => rw [Ring.buildLoop2]; simp [hfit]
+      rw [this]; simp
+
+/-- fixed walk, within one emission: no two built collections share a bucket, none contains the head
+bucket, and every index is a ring index — for EVERY configuration. -/
+theorem built_disjoint (r : Ring) (hh : r.head < r.n) :
+    (r.built.map (·.idxs)).Pairwise (fun a b => ∀ i, i ∈ a → i ∉ b) ∧
+    ∀ c ∈ r.built, ∀ i ∈ c.idxs, i ≠ r.head ∧ i < r.n := by
+  have hpre := built_prefix r hh
+  by_cases hagg : r.agg < 1
+  · have : r.built = [] := by unfold Ring.built; simp [hagg]
+    rw [this]; simp
+  · refine ⟨(allWins_pairwise r hh r.n _ (by omega)).sublist hpre.sublist, ?_⟩
+    intro c hc i hi
+    have hmem : c.idxs ∈ allWins r r.n (1 + r.pushAfter + r.agg) :=
+      hpre.subset (List.mem_map.2 ⟨c, hc, rfl⟩)
+    obtain ⟨d, h1, h2, h3⟩ := allWins_dist r r.n _ (by omega) _ hmem i hi
+    refine ⟨?_, by rw [h3]; exact idxSub_lt r _ _ (by omega)⟩
+    intro he
+    have h0 : r.idxSub r.head 0 = r.head := by
+      unfold Ring.idxSub; rw [Nat.sub_zero, Nat.add_mod_right]; exact Nat.mod_eq_of_lt hh
+    have he' : r.idxSub r.head d = r.idxSub r.head 0 := by rw [← h3, he, h0]
+    have := idxSub_inj r r.head d 0 hh h2 (by omega) he'
+    omega
+
+
+/-! ### the emission walk over histories: a bucket is handed to the sink at most once -/
+
+/-- pushed flag of the bucket `d` back from the head -/
+def Ring.pd (r : Ring) (d : Nat) : Bool := (r.bucket (r.idxSub r.head d)).pushed
+
+/-- Every pushed bucket lies in a window `(x, x + agg]` of distances, at or behind the emission
+position (`x ≥ 1 + pushAfter`), all of whose buckets still in the ring are pushed: the pushed buckets
+are exactly (the retained parts of) windows that were handed to the sink. -/
+def PInv (r : Ring) : Prop :=
+  ∀ d, d < r.n → r.pd d = true →
+    ∃ x, 1 + r.pushAfter ≤ x ∧ x < d ∧ d ≤ x + r.agg ∧ ∀ d', x < d' → d' ≤ x + r.agg → d' < r.n → r.pd d' = true
+
+theorem idxSub_zero (r : Ring) (hh : r.head < r.n) : r.idxSub r.head 0 = r.head := by
+  unfold Ring.idxSub; rw [Nat.sub_zero, Nat.add_mod_right]; exact Nat.mod_eq_of_lt hh
+
+theorem mem_allWins_form (r : Ring) (fuel D0 : Nat) (w : List Nat) (hw : w ∈ allWins r fuel D0) :
+    ∃ D, D0 ≤ D ∧ D < r.n ∧ w = winIdx r D r.agg := by
+  induction fuel generalizing D0 with
+  | zero => simp [allWins] at hw
+  | succ f ih =>
+    rw [allWins] at hw
+    split at hw
+    · rename_i hlt
+      simp only [List.mem_cons] at hw
+      rcases hw with rfl | hw
+      · exact ⟨D0, Nat.le_refl _, hlt, rfl⟩
+      · obtain ⟨D, h1, h2, h3⟩ := ih (D0 + r.agg) hw
+        exact ⟨D, by omega, h2, h3⟩
+    · cases hw
+
+theorem idx_in_win (r : Ring) (hh : r.head < r.n) (D d : Nat) (hD : D < r.n) (hd : d < r.n) (hagg : r.agg ≤ D) :
+    r.idxSub r.head d ∈ winIdx r D r.agg ↔ D - r.agg < d ∧ d ≤ D := by
+  rw [mem_winIdx]
+  constructor
+  · rintro ⟨j, hj, he⟩
+    have := idxSub_inj r r.head d (D - j) hh hd (by omega) he
+    omega
+  · rintro ⟨h1, h2⟩
+    exact ⟨D - d, by omega, by congr 1; omega⟩
+
+/-- what the fixed walk builds: windows whose oldest bucket is unpushed, and so is the oldest bucket of the
+window built just before (the next newer one), unless it is the first window -/
+theorem buildLoop2_unpushed (r : Ring) (hh : r.head < r.n) (fuel D : Nat) (hD : r.agg ≤ D) (c : Coll)
+    (hc : c ∈ r.buildLoop2 fuel D (r.idxSub r.head D) (r.idxSub r.head (D - r.agg))) :
+    ∃ D', D ≤ D' ∧ D' < r.n ∧ c.idxs = winIdx r D' r.agg ∧ r.pd D' = false ∧
+      (D' = D ∨ (D ≤ D' - r.agg ∧ r.pd (D' - r.agg) = false)) := by
+  induction fuel generalizing D with
+  | zero => simp [Ring.buildLoop2] at hc
+  | succ f ih =>
+    rw [Ring.buildLoop2] at hc
+    by_cases hlt : D < r.n
+    · simp only [hlt, if_true] at hc
+      cases hb : r.maybeBuild (r.idxSub r.head D) (r.idxSub r.head (D - r.agg)) with
+      | none => simp [hb] at hc
+      | some c0 =>
+        simp only [hb, List.mem_cons] at hc
+        have hun : r.pd D = false := maybeBuild_start_unpushed r _ _ c0 hb
+        rcases hc with rfl | hc
+        · refine ⟨D, Nat.le_refl _, hlt, ?_, hun, Or.inl rfl⟩
+          rw [maybeBuild_idxs r _ _ c hb]
+          exact iterIdx_win r hh r.n D r.agg (by omega) hD hlt
+        · by_cases h2 : D + r.agg < r.n
+          · have hnext : r.idxSub (r.idxSub r.head D) r.agg = r.idxSub r.head (D + r.agg) :=
+              idxSub_idxSub r r.head D r.agg hh (by omega)
+            rw [hnext] at hc
+            have he : D = D + r.agg - r.agg := by omega
+            rw [he] at hc
+            rw [← he] at hc
+            have hc' : c ∈ r.buildLoop2 f (D + r.agg) (r.idxSub r.head (D + r.agg)) (r.idxSub r.head (D + r.agg - r.agg)) := by
+              rw [← he]; exact hc
+            obtain ⟨D', h1, h2', h3, h4, h5⟩ := ih (D + r.agg) (by omega) hc'
+            refine ⟨D', by omega, h2', h3, h4, Or.inr ?_⟩
+            rcases h5 with h5 | ⟨h5, h6⟩
+            · subst h5; rw [← he]; exact ⟨Nat.le_refl _, hun⟩
+            · exact ⟨by omega, h6⟩
+          · have hnil : ∀ s e, r.buildLoop2 f (D + r.agg) s e = [] := by
+              intro s e
+              cases f with
+              | zero => rfl
+              | succ f' => rw [Ring.buildLoop2]; simp [h2]
+            rw [hnil] at hc; cases hc
+    · simp [hlt] at hc
+
+theorem built_unpushed (r : Ring) (hh : r.head < r.n) (c : Coll) (hc : c ∈ r.built) :
+    ∃ D', 1 + r.pushAfter + r.agg ≤ D' ∧ D' < r.n ∧ 1 ≤ r.agg ∧ c.idxs = winIdx r D' r.agg ∧ r.pd D' = false ∧
+      (D' = 1 + r.pushAfter + r.agg ∨ (1 + r.pushAfter + r.agg ≤ D' - r.agg ∧ r.pd (D' - r.agg) = false)) := by
+  unfold Ring.built at hc
+  simp only [] at hc
+  by_cases hagg : r.agg < 1
+  · simp [hagg] at hc
+  · simp only [hagg, if_false] at hc
+    by_cases hfit : 1 + r.pushAfter + r.agg < r.n
+    · have h1 : r.idxSub (r.idxSub r.head 1) r.pushAfter = r.idxSub r.head (1 + r.pushAfter) :=
+        idxSub_idxSub r r.head 1 r.pushAfter hh (by omega)
+      have h2 : r.idxSub (r.idxSub r.head (1 + r.pushAfter)) r.agg = r.idxSub r.head (1 + r.pushAfter + r.agg) :=
+        idxSub_idxSub r r.head (1 + r.pushAfter) r.agg hh (by omega)
+      rw [h1, h2] at hc
+      have he : 1 + r.pushAfter + r.agg - r.agg = 1 + r.pushAfter := by omega
+      have hc' : c ∈ r.buildLoop2 r.n (1 + r.pushAfter + r.agg) (r.idxSub r.head (1 + r.pushAfter + r.agg))
+          (r.idxSub r.head (1 + r.pushAfter + r.agg - r.agg)) := by rw [he]; exact hc
+      obtain ⟨D', a1, a2, a3, a4, a5⟩ := buildLoop2_unpushed r hh r.n (1 + r.pushAfter + r.agg) (by omega) c hc'
+      exact ⟨D', a1, a2, by omega, a3, a4, a5⟩
+    · have : ∀ s e, r.buildLoop2 r.n (1 + r.pushAfter + r.agg) s e = [] := by
+        intro s e
+        cases hn : r.n with
+        | zero => rfl
+        | succ f => rw [Ring.buildLoop2]; simp [hfit]
+      rw [this] at hc; cases hc
+
+/-- Under the pushed-window invariant every bucket of every collection the fixed walk builds is unpushed. -/
+theorem built_all_unpushed (r : Ring) (hh : r.head < r.n) (hI : PInv r)
+    (c : Coll) (hc : c ∈ r.built) (i : Nat) (hi : i ∈ c.idxs) : (r.bucket i).pushed = false := by
+  obtain ⟨D', h1, h2, hagg, h3, h4, h5⟩ := built_unpushed r hh c hc
+  rw [h3] at hi
+  obtain ⟨j, hj, rfl⟩ := mem_winIdx.1 hi
+  cases hpd : r.pd (D' - j) with
+  | false => exact hpd
+  | true =>
+    exfalso
+    obtain ⟨x, x1, x2, x3, x4⟩ := hI (D' - j) (by omega) hpd
+    by_cases hcase : D' ≤ x + r.agg
+    · have := x4 D' (by omega) hcase h2
+      rw [h4] at this; cases this
+    · rcases h5 with h5 | ⟨h5, h6⟩
+      · omega
+      · have := x4 (D' - r.agg) (by omega) (by omega) (by omega)
+        rw [h6] at this; cases this
+
+
+structure SameFlags (a b : Ring) : Prop where
+  head : a.head = b.head
+  len : a.n = b.n
+  pa : a.pushAfter = b.pushAfter
+  agg : a.agg = b.agg
+  pushed : ∀ i, (a.bucket i).pushed = (b.bucket i).pushed
+
+theorem SameFlags.pd {a b : Ring} (h : SameFlags a b) (d : Nat) : a.pd d = b.pd d := by
+  unfold Ring.pd Ring.idxSub; rw [h.head, h.len]; exact h.pushed _
+
+theorem PInv.of_flags {a b : Ring} (h : SameFlags a b) (hb : PInv b) : PInv a := by
+  intro d hd hp
+  rw [h.len] at hd; rw [h.pd] at hp
+  obtain ⟨x, x1, x2, x3, x4⟩ := hb d hd hp
+  refine ⟨x, by rw [h.pa]; exact x1, x2, by rw [h.agg]; exact x3, fun d' a1 a2 a3 => ?_⟩
+  rw [h.pd]; exact x4 d' a1 (by rw [← h.agg]; exact a2) (by rw [← h.len]; exact a3)
+
+theorem addFlow_flags (r : Ring) (key : Nat) (t cnt : Int) : SameFlags (r.addFlow key t cnt).1 r := by
+  cases hf : r.findBucket t with
+  | none => simp only [Ring.addFlow, hf]; exact ⟨rfl, rfl, rfl, rfl, fun _ => rfl⟩
+  | some i =>
+    simp only [Ring.addFlow, hf, Ring.setBucket]
+    refine ⟨rfl, by simp [Ring.n], rfl, rfl, fun j => ?_⟩
+    by_cases hj : i = j
+    · subst hj
+      by_cases hl : i < r.buckets.length
+      · simp [Ring.bucket, List.getD_eq_getElem?_getD, List.getElem?_set_self hl]
+      · rw [List.set_eq_of_length_le (Nat.le_of_not_lt hl)]; rfl
+    · simp [Ring.bucket, List.getD_eq_getElem?_getD, List.getElem?_set_ne hj]
+
+theorem advance_pd (r : Ring) (hn : 0 < r.n) (hh : r.head < r.n) (d : Nat) (hd : d < r.n) :
+    r.advance.pd d = if d = 0 then false else r.pd (d - 1) := by
+  have hh' : r.idxAdd r.head 1 < r.n := idxAdd_lt r _ _ hn
+  have hnn : r.advance.n = r.n := advance_n r
+  unfold Ring.pd
+  by_cases hd0 : d = 0
+  · subst hd0
+    have : r.advance.idxSub r.advance.head 0 = r.idxAdd r.head 1 := by
+      unfold Ring.idxSub; rw [hnn]; show (r.idxAdd r.head 1 + r.n - 0) % r.n = _
+      rw [Nat.sub_zero, Nat.add_mod_right]; exact Nat.mod_eq_of_lt hh'
+    rw [this]
+    have := bucket_set_self r (r.idxAdd r.head 1)
+      { start := (r.bucket r.head).stop, stop := (r.bucket r.head).stop + r.interval, pushed := false, keys := [] } hh'
+    show (r.advance.bucket (r.idxAdd r.head 1)).pushed = _
+    unfold Ring.advance
+    simp only [if_true]
+    simp only [Ring.bucket] at this ⊢
+    rw [this]
+  · simp only [hd0, if_false]
+    have hidx : r.advance.idxSub r.advance.head d = r.idxSub r.head (d - 1) := by
+      unfold Ring.idxSub; rw [hnn]
+      exact idxSub_next r r.head d hh (by omega) hd
+    have hne : r.idxAdd r.head 1 ≠ r.idxSub r.head (d - 1) := by
+      rw [idxAdd_one_eq_sub r r.head hh]
+      intro he
+      have := idxSub_inj r r.head (r.n - 1) (d - 1) hh (by omega) (by omega) he
+      omega
+    rw [hidx, advance_old r _ hne]
+
+theorem advance_pinv {r : Ring} (hn : 0 < r.n) (hh : r.head < r.n) (h : PInv r) : PInv r.advance := by
+  intro d hd hp
+  rw [advance_n] at hd
+  rw [advance_pd r hn hh d hd] at hp
+  by_cases hd0 : d = 0
+  · simp [hd0] at hp
+  · simp only [hd0, if_false] at hp
+    obtain ⟨x, x1, x2, x3, x4⟩ := h (d - 1) (by omega) hp
+    refine ⟨x + 1, by show 1 + r.pushAfter ≤ x + 1; omega, by omega, by show d ≤ x + 1 + r.agg; omega, ?_⟩
+    intro d' a1 a2 a3
+    rw [advance_n] at a3
+    rw [advance_pd r hn hh d' a3]
+    have : d' ≠ 0 := by omega
+    simp only [this, if_false]
+    exact x4 (d' - 1) (by omega) (by have : d' ≤ x + 1 + r.agg := a2; omega) (by omega)
+
+theorem emit_fields (r : Ring) : r.emit.1.pushAfter = r.pushAfter ∧ r.emit.1.agg = r.agg := by
+  unfold Ring.emit
+  simp only []
+  generalize (r.built.reverse).filter (fun c => !c.flows.isEmpty) = cs
+  induction cs generalizing r with
+  | nil => exact ⟨rfl, rfl⟩
+  | cons c cs ih => simp only [List.foldl_cons]; exact ih (r.markPushed c.idxs)
+
+theorem emit_pushed (r : Ring) (j : Nat) :
+    (r.emit.1.bucket j).pushed = ((r.bucket j).pushed || (decide (∃ c ∈ r.emit.2, j ∈ c.idxs) && decide (j < r.n))) := by
+  unfold Ring.emit; simp only []; exact foldMark_pushed _ r j
+
+theorem emit_sent_built (r : Ring) (c : Coll) (hc : c ∈ r.emit.2) : c ∈ r.built := by
+  unfold Ring.emit at hc; simp only [] at hc
+  exact List.mem_reverse.1 (List.mem_filter.1 hc).1
+
+theorem emit_pinv {r : Ring} (hn : 0 < r.n) (hh : r.head < r.n) (h : PInv r) : PInv r.emit.1 := by
+  have hs := (emit_same r).1
+  have hf := emit_fields r
+  have hlen : r.emit.1.n = r.n := hs.len
+  have hpd : ∀ d, r.emit.1.pd d = (r.pd d || (decide (∃ c ∈ r.emit.2, r.idxSub r.head d ∈ c.idxs))) := by
+    intro d
+    unfold Ring.pd Ring.idxSub
+    rw [hs.head, hlen, emit_pushed]
+    have : (r.head + r.n - d) % r.n < r.n := Nat.mod_lt _ hn
+    simp [this]
+  intro d hd hpt
+  rw [hlen] at hd
+  rw [hpd d, Bool.or_eq_true] at hpt
+  rcases hpt with hold | hnew
+  · obtain ⟨x, x1, x2, x3, x4⟩ := h d hd hold
+    refine ⟨x, by rw [hf.1]; exact x1, x2, by rw [hf.2]; exact x3, fun d' a1 a2 a3 => ?_⟩
+    rw [hpd d', Bool.or_eq_true]; left
+    exact x4 d' a1 (by rw [← hf.2]; exact a2) (by rw [← hlen]; exact a3)
+  · simp only [decide_eq_true_eq] at hnew
+    obtain ⟨c, hc, hi⟩ := hnew
+    obtain ⟨D', b1, b2, b3, b4, _, _⟩ := built_unpushed r hh c (emit_sent_built r c hc)
+    rw [b4] at hi
+    have hw := (idx_in_win r hh D' d b2 hd (by omega)).1 hi
+    refine ⟨D' - r.agg, by rw [hf.1]; omega, hw.1, by rw [hf.2]; omega, fun d' a1 a2 a3 => ?_⟩
+    rw [hpd d', Bool.or_eq_true]; right
+    simp only [decide_eq_true_eq]
+    refine ⟨c, hc, ?_⟩
+    rw [b4]
+    rw [hlen] at a3; rw [hf.2] at a2
+    exact (idx_in_win r hh D' d' b2 a3 (by omega)).2 ⟨a1, by omega⟩
+
+/-- the ring after the head moved and the expired windows were dropped, before the emission -/
+def Ring.rolled (r : Ring) : Ring := (r.rollover false).1
+
+theorem rolled_flags (r : Ring) : SameFlags r.rolled r.advance := by
+  unfold Ring.rolled Ring.rollover
+  simp only []
+  exact ⟨rfl, rfl, rfl, rfl, fun _ => rfl⟩
+
+theorem rollover_true_eq (r : Ring) : (r.rollover true).1 = r.rolled.emit.1 ∧ (r.rollover true).2.2 = r.rolled.emit.2 := by
+  unfold Ring.rolled Ring.rollover
+  simp only []
+  exact ⟨rfl, rfl⟩
+
+/-- invariant of the fixed walk over histories -/
+structure HInv (r : Ring) : Prop where
+  npos : 0 < r.n
+  hlt : r.head < r.n
+  pinv : PInv r
+
+theorem rolled_hinv {r : Ring} (h : HInv r) : HInv r.rolled := by
+  have hf := rolled_flags r
+  refine ⟨by rw [hf.len, advance_n]; exact h.npos,
+    by rw [hf.len, hf.head, advance_n]; exact idxAdd_lt r _ _ h.npos,
+    PInv.of_flags hf (advance_pinv h.npos h.hlt h.pinv)⟩
+
+theorem emit_hinv {r : Ring} (h : HInv r) : HInv r.emit.1 := by
+  have hs := (emit_same r).1
+  refine ⟨by rw [show r.emit.1.n = r.n from hs.len]; exact h.npos,
+    by rw [show r.emit.1.n = r.n from hs.len, hs.head]; exact h.hlt, emit_pinv h.npos h.hlt h.pinv⟩
+
+theorem gstep_hinv {s : Ring × Log} (h : HInv s.1) (op : Op) : HInv (gstep s op).1 := by
+  cases op with
+  | add k t c =>
+    have hf := addFlow_flags s.1 k t c
+    show HInv (s.1.addFlow k t c).1
+    exact ⟨by rw [hf.len]; exact h.npos, by rw [hf.len, hf.head]; exact h.hlt,
+      PInv.of_flags hf h.pinv⟩
+  | roll sink =>
+    cases sink with
+    | false => exact rolled_hinv h
+    | true =>
+      show HInv (s.1.rollover true).1
+      rw [(rollover_true_eq s.1).1]
+      exact emit_hinv (rolled_hinv h)
+  | emit => exact emit_hinv h
+
+theorem grun_hinv {s : Ring × Log} (h : HInv s.1) (ops : List Op) : HInv (grun s ops).1 := by
+  induction ops generalizing s with
+  | nil => exact h
+  | cons op ops ih => exact ih (gstep_hinv h op)
+
+
+def AllUnpushed (r : Ring) : Prop := ∀ i, (r.bucket i).pushed = false
+
+theorem advance_unpushed {r : Ring} (h : AllUnpushed r) : AllUnpushed r.advance := by
+  intro i
+  by_cases hi : r.idxAdd r.head 1 = i
+  · subst hi
+    by_cases hl : r.idxAdd r.head 1 < r.buckets.length
+    · simp [Ring.advance, Ring.bucket, List.getD_eq_getElem?_getD, List.getElem?_set_self hl]
+    · unfold Ring.advance Ring.bucket
+      simp only []
+      rw [List.set_eq_of_length_le (Nat.le_of_not_lt hl)]
+      exact h _
+  · rw [advance_old r i hi]; exact h i
+
+theorem rollN_unpushed {r : Ring} (h : AllUnpushed r) (m : Nat) : AllUnpushed (rollN r m) := by
+  induction m generalizing r with
+  | zero => exact h
+  | succ m ih =>
+    apply ih
+    intro i
+    have := (rolled_flags r).pushed i
+    unfold Ring.rolled at this
+    rw [this]; exact advance_unpushed h i
+
+theorem initRing_unpushed (n : Nat) (interval S : Int) (pushAfter agg : Nat) :
+    AllUnpushed (initRing n interval S pushAfter agg) := by
+  intro i
+  unfold initRing Ring.bucket
+  simp only [List.getD_eq_getElem?_getD]
+  by_cases h0 : 0 = i
+  · subst h0
+    by_cases hl : 0 < (List.replicate n emptyBucket).length
+    · rw [List.getElem?_set_self hl]; rfl
+    · rw [List.set_eq_of_length_le (Nat.le_of_not_lt hl)]
+      cases hh : (List.replicate n emptyBucket)[0]? with
+      | none => rfl
+      | some b => have := List.mem_of_getElem? hh; rw [List.mem_replicate] at this; rw [this.2]; rfl
+  · rw [List.getElem?_set_ne h0]
+    cases hh : (List.replicate n emptyBucket)[i]? with
+    | none => rfl
+    | some b => have := List.mem_of_getElem? hh; rw [List.mem_replicate] at this; simp [this.2, emptyBucket]
+
+theorem newRing_hinv (n : Nat) (interval now : Int) (pushAfter agg : Nat) (hn : 0 < n) (hi : 0 < interval) :
+    HInv (newRing n interval now pushAfter agg) := by
+  obtain ⟨hc, hl⟩ := newRing_contig n interval now pushAfter agg hn hi
+  have hu : AllUnpushed (newRing n interval now pushAfter agg) := by
+    rw [newRing_eq]; exact rollN_unpushed (initRing_unpushed _ _ _ _ _) n
+  refine ⟨hc.npos, hc.hlt, ?_⟩
+  intro d _ hp
+  unfold Ring.pd at hp
+  rw [hu] at hp; cases hp
+
+/-! ### multi-bucket queries: no stale windows -/
+
+def WSorted (ws : List Win) : Prop := ws.Pairwise (fun a b => a.start ≤ b.start)
+
+theorem addWin_sorted (st sp c : Int) (ws : List Win) (h : WSorted ws) : WSorted (addWin st sp c ws) := by
+  induction ws with
+  | nil => simp [addWin, WSorted]
+  | cons x xs ih =>
+    unfold WSorted at h ih ⊢
+    rw [List.pairwise_cons] at h
+    simp only [addWin]
+    split
+    · rename_i hge
+      split
+      · rw [List.pairwise_cons]; exact ⟨fun b hb => h.1 b hb, h.2⟩
+      · rw [List.pairwise_cons, List.pairwise_cons]
+        refine ⟨?_, h.1, h.2⟩
+        intro b hb
+        simp only [List.mem_cons] at hb
+        rcases hb with rfl | hb
+        · exact hge
+        · exact Int.le_trans hge (h.1 b hb)
+    · rename_i hlt
+      rw [List.pairwise_cons]
+      refine ⟨?_, ih h.2⟩
+      intro b hb
+      rcases addWin_mem _ _ _ _ _ hb with h1 | ⟨h1, _⟩
+      · exact h.1 b h1
+      · rw [h1]; omega
+
+theorem dropExpired_sorted (lim : Int) (ws : List Win) (h : WSorted ws) : WSorted (dropExpired lim ws) := by
+  induction ws with
+  | nil => exact h
+  | cons x xs ih =>
+    simp only [dropExpired]
+    split
+    · exact h
+    · unfold WSorted at h; rw [List.pairwise_cons] at h; exact ih h.2
+
+/-- on a start-sorted list whose windows all have the same width, `Rollover` drops exactly the expired windows -/
+theorem dropExpired_all (lim I : Int) (ws : List Win) (hs : WSorted ws) (hI : ∀ w ∈ ws, w.stop = w.start + I) :
+    ∀ w ∈ dropExpired lim ws, w.stop > lim := by
+  induction ws with
+  | nil => simp [dropExpired]
+  | cons x xs ih =>
+    unfold WSorted at hs; rw [List.pairwise_cons] at hs
+    simp only [dropExpired]
+    split
+    · rename_i hx
+      intro w hw
+      simp only [List.mem_cons] at hw
+      rcases hw with rfl | hw
+      · exact hx
+      · have h1 := hs.1 w hw
+        have h2 := hI w (List.mem_cons_of_mem _ hw)
+        have h3 := hI x (List.mem_cons_self ..)
+        omega
+    · exact ih hs.2 (fun w hw => hI w (List.mem_cons_of_mem _ hw))
+
+theorem insertKey_mem (k : Nat) (l : List Nat) (x : Nat) : x ∈ insertKey k l ↔ x = k ∨ x ∈ l := by
+  induction l with
+  | nil => simp [insertKey]
+  | cons y ys ih =>
+    simp only [insertKey]
+    split
+    · simp
+    · split
+      · rename_i hk; subst hk; simp
+      · simp only [List.mem_cons, ih]
+        constructor
+        · rintro (h | h | h)
+          · exact Or.inr (Or.inl h)
+          · exact Or.inl h
+          · exact Or.inr (Or.inr h)
+        · rintro (h | h | h)
+          · exact Or.inr (Or.inl h)
+          · exact Or.inl h
+          · exact Or.inr (Or.inr h)
+
+/-- extended invariant: the windows of every key are sorted by start, and every window belongs to a bucket
+of the ring that lists the key -/
+structure QInv (r : Ring) (log : Log) : Prop where
+  g : GInv r log
+  sorted : ∀ k, WSorted (r.wins k)
+  home : ∀ k w, w ∈ r.wins k → ∃ i, i < r.n ∧ (r.bucket i).start = w.start ∧ k ∈ (r.bucket i).keys
+
+
+theorem addFlow_keys (r : Ring) (key : Nat) (t cnt : Int) (j k : Nat) (h : k ∈ (r.bucket j).keys) :
+    k ∈ ((r.addFlow key t cnt).1.bucket j).keys := by
+  cases hf : r.findBucket t with
+  | none => simp only [Ring.addFlow, hf]; exact h
+  | some i =>
+    simp only [Ring.addFlow, hf, Ring.setBucket]
+    by_cases hj : i = j
+    · subst hj
+      by_cases hl : i < r.buckets.length
+      · simp only [Ring.bucket, List.getD_eq_getElem?_getD, List.getElem?_set_self hl, Option.getD_some]
+        exact (insertKey_mem _ _ _).2 (Or.inr h)
+      · rw [List.set_eq_of_length_le (Nat.le_of_not_lt hl)]; exact h
+    · simpa [Ring.bucket, List.getD_eq_getElem?_getD, List.getElem?_set_ne hj] using h
+
+theorem addFlow_key_self (r : Ring) (key : Nat) (t cnt : Int) (i : Nat) (hf : r.findBucket t = some i) (hi : i < r.n) :
+    key ∈ ((r.addFlow key t cnt).1.bucket i).keys := by
+  simp only [Ring.addFlow, hf, Ring.setBucket]
+  have hl : i < r.buckets.length := hi
+  simp only [Ring.bucket, List.getD_eq_getElem?_getD, List.getElem?_set_self hl, Option.getD_some]
+  exact (insertKey_mem _ _ _).2 (Or.inl rfl)
+
+theorem addFlow_qinv {r : Ring} {log : Log} (hq : QInv r log) (key : Nat) (t cnt : Int) :
+    QInv (r.addFlow key t cnt).1 (if (r.addFlow key t cnt).2 then (key, t, cnt) :: log else log) := by
+  have hg := addFlow_ginv hq.g key t cnt
+  cases hf : r.findBucket t with
+  | none =>
+    have : r.addFlow key t cnt = (r, false) := by simp [Ring.addFlow, hf]
+    rw [this]; exact hq
+  | some i0 =>
+    obtain ⟨hacc, hdia, hlay⟩ := addFlow_accept r key t cnt i0 hf
+    obtain ⟨ht1, ht2⟩ := findBucket_sound' r t i0 hf
+    obtain ⟨i', hi', hf', _⟩ := contig_findBucket hq.g.contig t ht2 ht1
+    have hii : i0 = i' := by rw [hf] at hf'; exact Option.some.inj hf'
+    subst hii
+    have hwk : (r.addFlow key t cnt).1.wins key = addWin (r.bucket i0).start (r.bucket i0).stop cnt (r.wins key) := by
+      unfold Ring.wins; rw [hdia]; exact setDia_self _ _ _ hq.g.ks
+    have hwo : ∀ k, k ≠ key → (r.addFlow key t cnt).1.wins k = r.wins k := by
+      intro k hk; unfold Ring.wins; rw [hdia]; exact setDia_ne _ _ _ _ hk
+    refine ⟨hg, ?_, ?_⟩
+    · intro k
+      by_cases hk : k = key
+      · subst hk; rw [hwk]; exact addWin_sorted _ _ _ _ (hq.sorted k)
+      · rw [hwo k hk]; exact hq.sorted k
+    · intro k w hw
+      have old : w ∈ r.wins k → ∃ i, i < (r.addFlow key t cnt).1.n ∧ ((r.addFlow key t cnt).1.bucket i).start = w.start ∧
+          k ∈ ((r.addFlow key t cnt).1.bucket i).keys := by
+        intro hwo'
+        obtain ⟨i, hi, hs, hk⟩ := hq.home k w hwo'
+        exact ⟨i, by rw [hlay.len]; exact hi, by rw [(hlay.bk i).1]; exact hs, addFlow_keys r key t cnt i k hk⟩
+      by_cases hk : k = key
+      · subst hk
+        rw [hwk] at hw
+        rcases addWin_mem _ _ _ _ _ hw with h1 | ⟨h1, _⟩
+        · exact old h1
+        · exact ⟨i0, by rw [hlay.len]; exact hi', by rw [(hlay.bk i0).1, h1], addFlow_key_self r k t cnt i0 hf hi'⟩
+      · rw [hwo k hk] at hw; exact old hw
+
+theorem advance_boh {r : Ring} (h : Contig r) : r.advance.boh = r.boh + r.interval := by
+  have h1 := contig_boh h
+  have h2 := contig_boh (advance_contig h)
+  rw [advance_eoh h, advance_n] at h2
+  have : r.advance.interval = r.interval := rfl
+  rw [this] at h2
+  omega
+
+theorem rollover_qinv {r : Ring} {log : Log} (hq : QInv r log) (sink : Bool) : QInv (r.rollover sink).1 log := by
+  have hg := rollover_ginv hq.g sink
+  have hspec := expireFold_spec r.advance.boh (r.bucket (r.idxAdd r.head 1)).keys r.dia hq.g.ks
+  have hw' : ∀ k, (r.rollover sink).1.wins k =
+      if k ∈ (r.bucket (r.idxAdd r.head 1)).keys then dropExpired r.advance.boh (r.wins k) else r.wins k := by
+    intro k; unfold Ring.wins; rw [rollover_dia]; exact hspec.2 k
+  have hsame := rollover_same r sink
+  refine ⟨hg, ?_, ?_⟩
+  · intro k; rw [hw']; split
+    · exact dropExpired_sorted _ _ (hq.sorted k)
+    · exact hq.sorted k
+  · intro k w hw
+    rw [hw'] at hw
+    have hwold : w ∈ r.wins k := by
+      split at hw
+      · exact dropExpired_mem _ _ _ hw
+      · exact hw
+    obtain ⟨i, hi, hs, hk⟩ := hq.home k w hwold
+    by_cases hih : r.idxAdd r.head 1 = i
+    · -- the window belongs to the bucket that was just reset: it has been dropped
+      exfalso
+      subst hih
+      simp only [hk, if_true] at hw
+      have h1 := dropExpired_all r.advance.boh r.interval (r.wins k) (hq.sorted k) (fun w hw => hq.g.wI k w hw) w hw
+      have h2 := hq.g.wI k w hwold
+      have h3 := advance_boh hq.g.contig
+      have h4 : r.boh = (r.bucket (r.idxAdd r.head 1)).start := rfl
+      omega
+    · refine ⟨i, by rw [rollover_n]; exact hi, ?_, ?_⟩
+      · rw [(hsame.bk i).1, advance_old r i hih]; exact hs
+      · rw [(hsame.bk i).2.2, advance_old r i hih]; exact hk
+
+theorem emit_qinv {r : Ring} {log : Log} (hq : QInv r log) : QInv r.emit.1 log := by
+  have hs := (emit_same r).1
+  have hd := (emit_same r).2
+  have hw : ∀ k, r.emit.1.wins k = r.wins k := fun k => by unfold Ring.wins; rw [hd]
+  refine ⟨emit_ginv hq.g, fun k => by rw [hw]; exact hq.sorted k, ?_⟩
+  intro k w hwm
+  rw [hw] at hwm
+  obtain ⟨i, hi, h1, h2⟩ := hq.home k w hwm
+  exact ⟨i, by rw [show r.emit.1.n = r.n from hs.len]; exact hi, by rw [(hs.bk i).1]; exact h1, by rw [(hs.bk i).2.2]; exact h2⟩
+
+theorem gstep_qinv {s : Ring × Log} (h : QInv s.1 s.2) (op : Op) : QInv (gstep s op).1 (gstep s op).2 := by
+  cases op with
+  | add k t c => exact addFlow_qinv h k t c
+  | roll sink => exact rollover_qinv h sink
+  | emit => exact emit_qinv h
+
+theorem grun_qinv {s : Ring × Log} (h : QInv s.1 s.2) (ops : List Op) : QInv (grun s ops).1 (grun s ops).2 := by
+  induction ops generalizing s with
+  | nil => exact h
+  | cons op ops ih => exact ih (gstep_qinv h op)
+
+theorem newRing_qinv (n : Nat) (interval now : Int) (pushAfter agg : Nat) (hn : 0 < n) (hi : 0 < interval) :
+    QInv (newRing n interval now pushAfter agg) [] := by
+  have hg := newRing_ginv n interval now pushAfter agg hn hi
+  have he : EmptyRing (newRing n interval now pushAfter agg) := by
+    rw [newRing_eq]; exact rollN_empty (initRing_empty _ _ _ _ _) n
+  have hw : ∀ k, (newRing n interval now pushAfter agg).wins k = [] := by
+    intro k; unfold Ring.wins; rw [he.1]; rfl
+  refine ⟨hg, fun k => by rw [hw]; exact List.Pairwise.nil, ?_⟩
+  intro k w hwm; rw [hw] at hwm; cases hwm
+
+
+/-! ### a range query is the sum over the retained buckets inside the range -/
+
+def bucketIn (gte lt : Int) (b : Bucket) : Bool := (gte == 0 || decide (b.start ≥ gte)) && (lt == 0 || decide (b.stop ≤ lt))
+
+theorem sum_map_add (L : List Nat) (f g : Nat → Int) :
+    (L.map (fun i => f i + g i)).sum = (L.map f).sum + (L.map g).sum := by
+  induction L with
+  | nil => simp
+  | cons x xs ih => simp only [List.map_cons, List.sum_cons, ih]; omega
+
+theorem sum_map_single (L : List Nat) (hnd : L.Nodup) (x0 : Nat) (hx : x0 ∈ L) (c : Int) :
+    (L.map (fun i => if i = x0 then c else 0)).sum = c := by
+  induction L with
+  | nil => cases hx
+  | cons y ys ih =>
+    rw [List.nodup_cons] at hnd
+    simp only [List.map_cons, List.sum_cons]
+    simp only [List.mem_cons] at hx
+    by_cases hy : y = x0
+    · subst hy
+      have : (ys.map (fun i => if i = y then c else 0)).sum = 0 := by
+        have hz : ys.map (fun i => if i = y then c else 0) = ys.map (fun _ => (0 : Int)) := by
+          apply List.map_congr_left
+          intro i hi
+          have : i ≠ y := fun h => hnd.1 (h ▸ hi)
+          simp [this]
+        rw [hz]; clear hz ih hx hnd
+        induction ys with
+        | nil => rfl
+        | cons _ _ ih => simp [ih]
+      simp [this]
+    · have hx' : x0 ∈ ys := by
+        rcases hx with h | h
+        · exact absurd h.symm hy
+        · exact h
+      simp [hy, ih hnd.2 hx']
+
+theorem sum_map_zero (L : List Nat) : (L.map (fun _ => (0 : Int))).sum = 0 := by
+  induction L with
+  | nil => rfl
+  | cons _ _ ih => simp [ih]
+
+/-- partition of a key's windows by the ring bucket they belong to -/
+theorem total_partition {r : Ring} (hc : Contig r) (ws : List Win)
+    (hhome : ∀ w ∈ ws, ∃ i, i < r.n ∧ (r.bucket i).start = w.start) (P : Win → Bool) :
+    total (ws.filter P) =
+      ((List.range r.n).map (fun i => total (ws.filter (fun w => P w && (w.start == (r.bucket i).start))))).sum := by
+  induction ws with
+  | nil => simp [total, sum_map_zero]
+  | cons w ws ih =>
+    have ih' := ih (fun w' hw' => hhome w' (List.mem_cons_of_mem _ hw'))
+    obtain ⟨i0, hi0, hs0⟩ := hhome w (List.mem_cons_self ..)
+    have hstart : ∀ i, i < r.n → ((w.start == (r.bucket i).start) = true ↔ i = i0) := by
+      intro i hi
+      simp only [beq_iff_eq]
+      constructor
+      · intro he
+        have hb := contig_stop_le hc i hi
+        have hb0 := contig_stop_le hc i0 hi0
+        have hI := hc.ipos
+        apply contig_unique hc w.start i i0 hi hi0
+        · simp only [Bucket.contains, Bool.and_eq_true, decide_eq_true_eq]; omega
+        · simp only [Bucket.contains, Bool.and_eq_true, decide_eq_true_eq]; omega
+      · intro he; rw [he, hs0]
+    have hsplit : ∀ i, i ∈ List.range r.n →
+        total ((w :: ws).filter (fun w' => P w' && (w'.start == (r.bucket i).start))) =
+          (if i = i0 then (if P w then w.cnt else 0) else 0) +
+            total (ws.filter (fun w' => P w' && (w'.start == (r.bucket i).start))) := by
+      intro i hi
+      have hi' : i < r.n := List.mem_range.1 hi
+      by_cases hii : i = i0
+      · have hb : (w.start == (r.bucket i).start) = true := (hstart i hi').2 hii
+        by_cases hp : P w = true
+        · rw [List.filter_cons_of_pos (by simp [hp, hb])]
+          simp [total, hii, hp]
+        · have hp' : P w = false := by simpa using hp
+          rw [List.filter_cons_of_neg (by simp [hp'])]
+          simp [hii, hp']
+      · have hb : (w.start == (r.bucket i).start) = false := by
+          cases hh : (w.start == (r.bucket i).start) with
+          | false => rfl
+          | true => exact absurd ((hstart i hi').1 hh) hii
+        rw [List.filter_cons_of_neg (by simp [hb])]
+        simp [hii]
+    rw [List.map_congr_left hsplit, sum_map_add, ← ih']
+    rw [sum_map_single (List.range r.n) List.nodup_range i0 (List.mem_range.2 hi0)]
+    by_cases hp : P w = true
+    · rw [List.filter_cons_of_pos hp]; simp [total, hp]
+    · have hp' : P w = false := by simpa using hp
+      rw [List.filter_cons_of_neg (by simp [hp'])]; simp [hp']
+
+/-- `query_eq_sum_retained`: in every reachable state, every row `List` returns for a range carries the sum,
+over the buckets of the ring that lie wholly inside the range (`0` = unbounded, as in the code), of the
+accepted flows of that key whose start time falls into the bucket. -/
+theorem list_eq_sum_buckets {r : Ring} {log : Log} (hq : QInv r log) (gte lt : Int) (x : Nat × Int × Int × Int)
+    (hx : x ∈ r.list gte lt) :
+    x.2.1 = ((List.range r.n).map (fun i =>
+      if bucketIn gte lt (r.bucket i) then logSum log x.1 (r.bucket i).start (r.bucket i).stop else 0)).sum := by
+  rw [list_count r gte lt x hx]
+  rw [total_partition hq.g.contig (r.wins x.1)
+    (fun w hw => by obtain ⟨i, h1, h2, _⟩ := hq.home x.1 w hw; exact ⟨i, h1, h2⟩) (inRange gte lt)]
+  congr 1
+  apply List.map_congr_left
+  intro i hi
+  have hi' : i < r.n := List.mem_range.1 hi
+  have hb := (contig_stop_le hq.g.contig i hi').1
+  -- inside one bucket `inRange` is constant = `bucketIn`
+  have hcongr : (r.wins x.1).filter (fun w => inRange gte lt w && (w.start == (r.bucket i).start)) =
+      (r.wins x.1).filter (fun w => bucketIn gte lt (r.bucket i) && (w.start == (r.bucket i).start)) := by
+    apply List.filter_congr
+    intro w hw
+    by_cases hs : w.start = (r.bucket i).start
+    · have hI := hq.g.wI x.1 w hw
+      have : w.stop = (r.bucket i).stop := by rw [hI, hb, hs]
+      simp [inRange, bucketIn, hs, this]
+    · have : (w.start == (r.bucket i).start) = false := by simpa using hs
+      simp [this]
+  rw [hcongr]
+  by_cases hin : bucketIn gte lt (r.bucket i) = true
+  · simp only [hin, Bool.true_and, if_true]
+    exact hq.g.q x.1 i hi'
+  · have hin' : bucketIn gte lt (r.bucket i) = false := by simpa using hin
+    have hnil : (r.wins x.1).filter (fun w => bucketIn gte lt (r.bucket i) && (w.start == (r.bucket i).start)) = [] := by
+      apply List.filter_eq_nil_iff.2
+      intro w _; simp [hin']
+    rw [hnil]; simp [hin', total]
 
 end CalicoVerif.C32
